@@ -380,6 +380,14 @@ def gen(k: int, tier: str) -> dict[str, Any]:
     scn = dict(base)
     scn["warmups"] = rng.choice([1, 1, 2])
     scn["clock"] = rng.choice(["spread", "tight", "tight"])
+    rs = kit.family_rng(PROP, "plug", k)  # separate stream: members without a plugin are unchanged
+    if rs.random() < 0.25 and scn["project"].get("argv_mode") != "dir":
+        # the plugins snapshot is part of the cache validity protocol: the faulted run follows a plugin change
+        n0 = rs.randint(0, 5)
+        scn["project"] = dict(scn["project"], plugin=n0)
+        scn["steps"] = [dict(st) for st in scn["steps"]]
+        scn["steps"][-1]["edits"] = list(scn["steps"][-1]["edits"]) + [{"e": "plugin", "mod": "m0", "value": n0 + rs.choice([1, 2])}]
+        scn["plug"] = True
     if rng.random() < 0.25:
         st2 = copy.deepcopy(base["project"])
         for st in base["steps"]:
@@ -512,6 +520,8 @@ def run(tier: str) -> int:
     n = 16 if tier == "quick" else FAMILY["seq"]
     n_par = 4 if tier == "quick" else FAMILY["par"]
     items = [(k, tier) for k in kit.sample_indices(PROP, "seq", FAMILY["seq"], n)] + [(100000 + k, tier) for k in kit.sample_indices(PROP, "par", FAMILY["par"], n_par)]
+    if os.environ.get("VERIF_C04_ONLY") == "plug":
+        items = [it for it in items if it[0] < 100000 and gen(it[0], tier).get("plug")]
     known = kit.load_known_findings(PROP)
     # determinism self-test: the same scenarios again must give the same plans, faults and verdicts
     n_det = 2 if tier == "quick" else 24
